@@ -400,6 +400,24 @@ fn probe() {
             Guarded::Hang => println!("partition_scheme({k}, {m}): no answer in 60 s"),
         }
     }
+    // (1b) the root expression satisfies root_ok for every part_count below 2^24, max_iter 1..=8
+    //      (and the first max_iter at which a root of 1 appears for 2 parts)
+    let root = |k: usize, m: usize| (k as f32).powf(1. / m as f32).ceil() as usize;
+    let mut bad = 0usize;
+    let mut first_bad = None;
+    for m in 1..=8usize {
+        for k in 1..(1usize << 24) {
+            let r = root(k, m);
+            let ok = if k == 1 { r == 1 } else { 2 <= r && r <= k } && (m != 1 || r == k);
+            if !ok {
+                bad += 1;
+                first_bad.get_or_insert((k, m, r));
+            }
+        }
+    }
+    println!("root_ok violations for 1 <= part_count < 2^24, max_iter 1..=8: {bad} {first_bad:?}");
+    let m1 = (1..100_000_000usize).find(|m| root(2, *m) < 2);
+    println!("smallest max_iter with root(2, max_iter) = 1: {m1:?}");
     // (2) strictly positive weights far below f64::EPSILON
     for scale in [1.0f64, 1e-12, 1e-15, 1e-16, 1e-17, 1e-20] {
         let n = 8usize;
